@@ -647,6 +647,9 @@ pub fn upd(r: &mut Ref, s: &Upd) -> String {
         o.push_str(&with(r, w));
     }
     o.push_str(&format!("UPDATE {}", r.id(&s.table)));
+    if let Some(al) = &s.alias {
+        o.push_str(&format!(" AS {}", r.id(al)));
+    }
     let mysql_join = r.d == Dialect::Mysql && !s.from.is_empty();
     if mysql_join {
         let f = from(r, &s.from[0]);
@@ -660,7 +663,7 @@ pub fn upd(r: &mut Ref, s: &Upd) -> String {
         .iter()
         .map(|(c, e)| {
             let v = x(r, e);
-            if mysql_join {
+            if mysql_join && s.alias.is_none() {
                 format!("{}.{} = {v}", r.id(&s.table), r.id(c))
             } else {
                 format!("{} = {v}", r.id(c))
@@ -700,6 +703,9 @@ pub fn del(r: &mut Ref, s: &Del) -> String {
         o.push_str(&with(r, w));
     }
     o.push_str(&format!("DELETE FROM {}", r.id(&s.table)));
+    if let Some(al) = &s.alias {
+        o.push_str(&format!(" AS {}", r.id(al)));
+    }
     if !s.wheres.is_empty() {
         o.push_str(&format!(" WHERE {}", conj(r, &s.wheres)));
     }
